@@ -1,7 +1,8 @@
 (* C07 — O2Jam .ojn reading.  Property theorems only: each is closed by [exact] from Proofs/ or Base/
    (table obligations and concrete witnesses by vm_compute). *)
-From Coq Require Import ZArith QArith List Bool.
-From RV Require Import Base.PyNum Base.Bytes Formats.O2J Formats.O2JSpec Generated.Tables Proofs.O2JProofs Proofs.O2JHeaderProofs.
+From Coq Require Import ZArith QArith List Bool Permutation.
+From RV Require Import Base.PyNum Base.Bytes Formats.O2J Formats.O2JSpec Generated.Tables Proofs.O2JProofs Proofs.O2JHeaderProofs
+  Proofs.O2JParseProofs Proofs.O2JComposeProofs.
 Import ListNotations.
 Open Scope Q_scope.
 
@@ -16,6 +17,53 @@ Theorem C07_channels_are_reference :
   = (ref_ch_tempo, ref_ch_col0, (ref_ch_col_last + 1)%Z, map (fun c => (ref_ch_col0 + c)%Z) columns,
      ref_kind_tap, ref_kind_head, ref_kind_tail).
 Proof. vm_compute. reflexivity. Qed.
+
+(* ==== THE PROPERTY, all inputs ====
+   For every well-formed abstract OJN file f (header values; three difficulties; any number of packages,
+   any slot counts, any number of tempo events at any position incl. after the last note and exactly at
+   a note; notes on all seven columns; long notes across packages and measures; no measure-fraction
+   package) and ANY trailing bytes, the reader (model read_fixed = the code since 9171148/d4c1412) applied
+   to the laid-out bytes succeeds and returns what the file denotes (ojn_denote, DESIGN B.5): the same
+   header, and per difficulty the same hits and long notes up to row order and the same tempo rows --
+   every note, long-note end and tempo change at the integral of its measure position. ==== *)
+Theorem C07_ojn_read_denotes : forall f trail, wf_file f = true ->
+  exists o d, read_fixed (encode_file f ++ trail) = Some o /\ ojn_denote f = Some d
+    /\ os_hdr o = os_hdr d /\ Forall2 map_equiv (os_maps o) (os_maps d).
+Proof. exact (ojn_read_fixed_denotes C07_layout_is_reference). Qed.
+Theorem C07_ojn_read_meets_spec : forall f trail, wf_file f = true ->
+  OjnSpec 0 f (read_fixed (encode_file f ++ trail)).
+Proof. exact (ojn_read_fixed_meets_spec C07_layout_is_reference). Qed.
+
+(* ---- its parts ---- *)
+(* the package parser inverts the package layout (framing, little-endian fields, dense slots -> sparse events) *)
+Theorem C07_package_parser_inverts_layout : forall p rest hb, wf_pkg p = true ->
+  (p_channel p = ref_ch_tempo -> sparse_tempos (p_measure p) (p_n p) (p_events p) <> None) ->
+  read_package (encode_pkg p ++ rest) hb
+  = match pkg_sem p hb with Some (es, hb') => Some (es, rest, hb') | None => None end.
+Proof. exact read_package_enc. Qed.
+(* ojn_ln_pairing: one hold buffer walked in file order = per-column head->tail pairing, never fails on
+   well-paired columns, ends empty *)
+Theorem C07_ojn_ln_pairing : forall cols, NoDup cols -> forall l hb,
+  hb_nodup hb -> Forall (fun x => In (fst x) cols) l ->
+  (forall c, In c cols -> pairing_ok (proj c l) (is_some (hb_get hb c)) = true) ->
+  (forall c, ~ In c cols -> hb_get hb c = None) ->
+  exists E hb', walk_flat l hb = Some (E, hb')
+    /\ Permutation E (flat_map (fun c => pair_ev c (proj c l) (hb_get hb c)) cols) /\ hb' = [].
+Proof. exact walk_flat_pairing. Qed.
+(* ojn_notes_denote / ojn_tempo_times on extracted events: sort, note-measure set, dict and sweep together *)
+Theorem C07_read_pkgs_is_integration : forall init T, ~ init == 0 -> bpms_nonzero T -> sorted_pos 0 T ->
+  forall pkgs, Forall (fun e => e <> EMeasureChange) (concat pkgs) ->
+  sort_by fst (flat_map tempo_of (concat pkgs)) = T ->
+  exists hs ls,
+    read_pkgs_fixed pkgs init
+    = Some (mkOMap hs ls (mkBpm 0 init :: map (fun t => mkBpm (Qred (time init T (fst t))) (snd t)) T))
+    /\ Permutation hs (flat_map (hit_row init T) (concat pkgs))
+    /\ Permutation ls (flat_map (hold_row init T) (concat pkgs)).
+Proof. exact read_pkgs_fixed_spec. Qed.
+(* a tempo event exactly at a position: counting it (<=) or not (<) gives the same time *)
+Theorem C07_tempo_at_position_immaterial : forall l t p0 b p, sorted_pos p0 l ->
+  ojn_time_go_strict t p0 b l p == ojn_time_go t p0 b l p.
+Proof. exact ojn_time_strict_eq. Qed.
 
 (* ---- ojn_header_decodes: for EVERY well-formed header (and whatever bytes follow it) read_meta, driven by
    the live layout table, returns exactly the values the format lays down: field extraction = layout;
@@ -46,8 +94,8 @@ Proof. exact f32_sign_flip. Qed.
 Theorem C07_f32_nonneg : forall w v, (0 <= w < 2 ^ 31)%Z -> f32_of_bits w = Some v -> 0 <= v.
 Proof. exact f32_nonneg. Qed.
 
-(* ---- ojn_notes_denote / ojn_tempo_times, algorithmic core, ALL inputs:
-   the repaired sweep (read_pkgs_fixed's loop) started on header tempo [init] and ANY list of tempo events
+(* ---- the sweep alone, ALL inputs:
+   the sweep (read_pkgs_fixed's loop) started on header tempo [init] and ANY list of tempo events
    [bpms] (non-zero values), for ANY ascending list of note measures, never fails, gives every note
    measure the integral of the beat length up to it, and gives the tempo events their running times ---- *)
 Theorem C07_fixed_sweep_is_integration : forall init bpms, ~ init == 0 -> bpms_nonzero bpms ->
@@ -69,8 +117,8 @@ Proof. exact tempo_time_is_integral. Qed.
 Theorem C07_specb_sound : forall tol f out, specb tol f out = true -> OjnSpec tol f out.
 Proof. exact specb_sound. Qed.
 
-(* ---- the pinned tree: refuted, with witnesses that are replayed on the implementation
-        (corpus/C07/*.json); guarded form ---- *)
+(* ---- the OLD reader (read_old: the tree before 9171148 / d4c1412, kept only for this): refuted, with the
+        witnesses that are replayed on the implementation on every run (corpus/C07/w_*.json) ---- *)
 Theorem C07_ojn_tempo_times_refuted :
   wf_file w_sweep = true /\ exists o, read_old (encode_file w_sweep) = Some o /\ specb 0 w_sweep (Some o) = false
   /\ map om_bpms (os_maps o) = [[mkBpm 0 120; mkBpm 0 240]; [mkBpm 0 120]; [mkBpm 0 120]]
